@@ -32,6 +32,19 @@ REG = {}   # input line -> (stage, JSON-able snapshot of the case description), 
 HCACHE = {}   # input line -> harness output, filled by one interleaved run of all stages' cases in a single process
 
 
+def nonfinite_count(h):
+    """number of doubles in a harness output line that are NaN or +-inf (16-hex-digit tokens with all exponent bits set)"""
+    cnt = 0
+    for tok in h.split():
+        if len(tok) == 16:
+            try:
+                if (int(tok, 16) >> 52) & 0x7ff == 0x7ff:
+                    cnt += 1
+            except ValueError:
+                pass
+    return cnt
+
+
 def run_h(binary, lines):
     """outputs of the harness for `lines`: from the interleaved run when available"""
     if lines and all(l in HCACHE for l in lines):
@@ -414,6 +427,9 @@ def points_stage(ctx, binary, stats, hist, only=None):
         if not h.startswith("ok"):
             prop_bad.append(("points-crash", "sigma_point()/augmentWithNoise failed on a valid mixture (%s): %s" % (key, h[:80]), line, h))
             continue
+        if nonfinite_count(h):
+            prop_bad.append(("output-not-finite", "sigma_point() (%s, covariance style %s): %d NaN / inf entries for a finite PSD input" % (key, meta["style"], nonfinite_count(h)), line, h))
+            continue
         t = h.split()
         okaug, dim, dimcov, dimnoise, xr, xc = [int(x) for x in t[1:7]]
         p = 7
@@ -458,6 +474,35 @@ def points_stage(ctx, binary, stats, hist, only=None):
             agree = h_.startswith("ok") and d_.startswith("ok") and ht[1] == d_.split()[1] and (ht[1] == "1" or ht[-1] == "same")
             if not agree:
                 hist["augmentWithNoise:guard-differs-from-model(not alarmed)"] = hist.get("augmentWithNoise:guard-differs-from-model(not alarmed)", 0) + 1
+    # aliasing (fix af9098e): the noise covariance handed to augmentWithNoise refers to the mixture's own storage
+    if not ctx.replay:
+        al = []
+        for _ in range(ctx.n(10, 80)):
+            lin, k = g.r.randint(1, 4), g.r.randint(1, 4)
+            comp = g.r.randrange(k)
+            means = [g.vec(lin) for _ in range(k)]
+            Ps = [g.spd(lin) for _ in range(k)]
+            toks = ["augal", str(lin), str(k), str(comp)] + [hexd(v) for m_ in means for v in m_]
+            toks += [hexd(P[a][b]) for P in Ps for b in range(lin) for a in range(lin)]
+            al.append((" ".join(toks), lin, k, comp, means, Ps))
+        register("points-alias", [(x[0], {"aliased-augmentation": list(x[1:4])}) for x in al])
+        ah, _ = vlib.run_harness(binary, [x[0] for x in al])
+        for (aline, lin, k, comp, means, Ps), h_ in zip(al, ah):
+            hist["augmentWithNoise:argument-aliases-own-storage"] = hist.get("augmentWithNoise:argument-aliases-own-storage", 0) + 1
+            n2 = 2 * lin
+            want_m = [fmat([m_])[0] + [F0] * lin for m_ in means]
+            want_c = [blockdiag(P, Ps[comp]) for P in Ps]
+            ok_ = h_.startswith("ok") and not nonfinite_count(h_)
+            if ok_:
+                t_ = h_.split()
+                ok_ = [int(x) for x in t_[1:5]] == [1, n2, n2, lin]
+                if ok_:
+                    gm = vlib.mat_from_cm(t_[5:5 + n2 * k], n2, k, frac_of_hex)
+                    gc = vlib.mat_from_cm(t_[5 + n2 * k:5 + n2 * k + n2 * n2 * k], n2, n2 * k, frac_of_hex)
+                    ok_ = [[gm[r_][i] for r_ in range(n2)] for i in range(k)] == want_m and \
+                          [[[gc[a][n2 * i + b] for b in range(n2)] for a in range(n2)] for i in range(k)] == want_c
+            if not ok_:
+                prop_bad.append(("augment-wrong", "augmentWithNoise(g.covariance(%d)) (argument refers to the mixture's own storage): result is not [m;0], blockdiag(P_i, P_%d): %s" % (comp, comp, h_[:60]), aline, h_))
     return len(cases), lines, prop_bad, corr_bad, len(logs)
 
 
@@ -815,9 +860,14 @@ def transform_stage(ctx, binary, stats, hist, notes, only=None):
         hist["ut:A=" + meta["astyle"]] = hist.get("ut:A=" + meta["astyle"], 0) + 1
         hist["ut:P=" + meta["pstyle"]] = hist.get("ut:P=" + meta["pstyle"], 0) + 1
         hist["ut:scale=" + meta.get("scale", "?")] = hist.get("ut:scale=" + meta.get("scale", "?"), 0) + 1
+        nf = nonfinite_count(h) if h.startswith("ok") else 0
         try:
+            if nf:
+                raise ArithmeticError("non-finite")
             probs, o, Bs = check_ut_case(line, meta, h, stats, notes)
-        except (IndexError, ValueError, ArithmeticError) as e:
+        except ArithmeticError:
+            probs, o, Bs = [("prop", "output-not-finite", "unscented_transform (%s overload): %d NaN / inf entries in the sigma points or in the transformed moments for a finite input" % (meta["mode"], max(nf, 1)))], None, None
+        except (IndexError, ValueError) as e:
             probs, o, Bs = [("prop", "ut-output-malformed", "unscented_transform (%s overload): output not of the expected form (%s): %s" % (meta["mode"], type(e).__name__, h[:80]))], None, None
         first.append((probs, o, Bs))
         if Bs is not None or (o is not None and not meta["valid"]):
@@ -1375,8 +1425,13 @@ def circ_stage_impl(ctx, binary, stats, hist, notes, only=None):
             probs.append(("prop", "ut-crash" if meta["valid"] else "ut-crash-on-failure", "unscented_transform failed on a valid input with circular components (%s): %s" % (kind, h[:80])))
         else:
             try:
+                if nonfinite_count(h):
+                    raise ArithmeticError("non-finite")
                 o = parse_utc_out(h, meta)
-            except (IndexError, ValueError, ArithmeticError) as e:
+            except ArithmeticError:
+                o = None
+                probs.append(("prop", "output-not-finite", "unscented_transform with circular components (%s): %d NaN / inf entries for a finite input" % (kind, max(nonfinite_count(h), 1))))
+            except (IndexError, ValueError) as e:
                 o = None
                 probs.append(("prop", "ut-output-malformed", "unscented_transform with circular components: output not of the expected form (%s): %s" % (type(e).__name__, h[:80])))
             n = li.dof
@@ -1514,6 +1569,7 @@ def run(ctx):
         "augmentWithNoise:second augmentation": hist.get("points:noise-blocks=2", 0),
         "dof_size:quaternion": hist.get("weights:dof:quat", 0), "dof_size:else": hist.get("weights:dof:euler", 0),
         "directional_mean:cols==1": 0,
+        "special size: one degree of freedom (3 sigma points)": sum(1 for (l, m_) in cases if m_["nx"] + m_["nz"] == 1) + sum(1 for l in clines if int(l.split()[1]) + int(l.split()[2]) * (3 if l.split()[3] == "1" else 1) + int(l.split()[4]) == 1) + sum(1 for l in plines if int(l.split()[1]) == 1 and int(l.split()[5]) == 0),
     })
     all_lines = wlines + plines + tlines + clines
     nontrivial = set()
